@@ -248,6 +248,12 @@ func (cr *clRun) viol(prop, clause, format string, a ...interface{}) {
 			return
 		}
 	}
+	if cr.s.Prop == "C07" && prop == "C02" && clause == "laggard-still-attached" {
+		// C02's clause (a replica that missed a write is still attached); a C07 run goes on to see what C07
+		// is about: whether that replica, if it is a rebuilding one, gets promoted with the write missing
+		cr.res.stat("c02_laggard_seen_run_continues", 1)
+		return
+	}
 	v := &Violation{Prop: prop, Clause: clause, Msg: fmt.Sprintf(format, a...), Step: cr.step}
 	if prop == cr.s.Prop {
 		cr.res.V = v
@@ -2077,7 +2083,11 @@ func (clustersim) Generate(rng *Rand, prop, tier string) *Script {
 		if (prop == "C13" || prop == "C16" || prop == "C11") && rng.Bool(50) {
 			x = 95
 		}
-		if rf >= 2 && rng.Bool(30) {
+		pWindow, pDiskerr, pAgent := 30, 20, 8
+		if prop == "C07" {
+			pWindow, pDiskerr, pAgent = 60, 35, 20
+		}
+		if rf >= 2 && rng.Bool(pWindow) {
 			// rebuild window: faults and I/O while a replica is WO
 			victim := int64(rng.Intn(nreps))
 			if rng.Bool(40) {
@@ -2092,7 +2102,20 @@ func (clustersim) Generate(rng *Rand, prop, tier string) *Script {
 			add(Op{K: "adv", A: int64(rng.Range(100, 3000))})
 			genIO()
 			wait()
-			if rng.Bool(50) {
+			// C07 runs: half of the windows concentrate on one of the two situations in which a rebuilt replica can
+			// end up different although every call "succeeded": (1) the WO replica fails ONE foreground write and stays
+			// alive (disk full), (2) foreground writes land while the reloaded replica merges its block maps
+			focus := 0
+			if prop == "C07" {
+				focus = rng.Intn(4)
+			}
+			genW := func() {
+				b := int64(rng.Intn(int(nb)))
+				add(Op{K: "w", A: b * 8, B: 8})
+			}
+			if focus == 2 {
+				add(Op{K: "hook", A: victim, B: 1, C: 1}) // pause inside UpdateLUNMap
+			} else if rng.Bool(50) {
 				add(Op{K: "hook", A: victim, B: int64(1 + rng.Intn(2)), C: 1}) // pause inside UpdateLUNMap / preload
 			} else if rng.Bool(50) {
 				// lose one management call somewhere inside the add/rebuild conversation
@@ -2103,17 +2126,40 @@ func (clustersim) Generate(rng *Rand, prop, tier string) *Script {
 				// the replica comes back with an empty disk (no checkpoint, no snapshots of its own) ...
 				add(Op{K: "replace", A: victim})
 				// ... and somebody asks the controller to verify/promote it while the copy is still running
-				earlyVerify = rng.Bool(60)
+				earlyVerify = rng.Bool(40)
 			} else {
 				add(Op{K: "restart", A: victim})
-				earlyVerify = rng.Bool(15)
+				earlyVerify = rng.Bool(5)
+			}
+			if rng.Bool(pAgent) {
+				// one of the file transfers of this rebuild fails (the ssync child on the source exits non-zero
+				// after the first chunk): armed on every possible source
+				for r := 0; r < nreps; r++ {
+					if int64(r) != victim {
+						add(Op{K: "agentfault", A: int64(r), B: 0, C: 1})
+					}
+				}
+			}
+			switch focus {
+			case 1:
+				add(Op{K: "adv", A: int64(rng.Range(20, 700))})
+				add(Op{K: "diskerr", A: victim, B: 0, C: 1, F: false}) // ENOSPC: the replica answers with an error and lives on
+				genW()
+				wait()
+			case 2:
+				add(Op{K: "adv", A: int64(rng.Range(800, 1800))})
+				for i, k := 0, rng.Range(2, 4); i < k; i++ {
+					genW()
+					add(Op{K: "adv", A: int64(rng.Range(50, 500))})
+				}
 			}
 			add(Op{K: "adv", A: int64(rng.Range(5, 2500))})
 			for i, k := 0, rng.Range(1, 5); i < k; i++ {
 				if earlyVerify && rng.Bool(50) {
 					add(Op{K: "verify", A: victim})
+					earlyVerify = false
 				}
-				if rng.Bool(20) {
+				if rng.Bool(pDiskerr) {
 					// a transient disk error on the rebuilding replica (or another one) for the next write
 					dv := victim
 					if rng.Bool(30) {
